@@ -48,6 +48,12 @@ def Db.rowsBelowB (d : Db) : Bool :=
   d.loops.all (fun r => d.values.all (fun v =>
     !(v.cid == r.cid && (d.loopItems r.cid r.loopNum).any (fun i => i.name == v.name)) || decide (v.rowNum ≤ r.lastRowNum)))
 
+/-- "every packet of every loop has a stored value for every item of the loop" (what fix e266ec6 established for cif_loop_add_packet),
+    as a Boolean evaluated by the model driver on every state it reaches (printed into the model's observation when false) -/
+def Db.packetsTotalB (d : Db) : Bool :=
+  d.loops.all (fun x => (d.loopRows x.cid x.loopNum).all (fun r =>
+    (d.loopItems x.cid x.loopNum).all (fun j => d.hasValue x.cid j.name r)))
+
 -- ---- histories -------------------------------------------------------------------------------------------------------
 
 inductive Op where
